@@ -146,7 +146,10 @@ def stepTick (evictAll : Bool) (d : Dance) (plains : List Plain) (osd : Nat) (r 
       if rem - 1 == 0 then decide evictAll d osd r n
       else
         let (n', other) := countQueue d r.q 1
-        if other || n' ≥ d.acts.length then decide evictAll d osd r n'
+        -- "the count ends when ... the list is exhausted": a dance never counts more taps than the
+        -- list is long; presses of the key queued beyond that are not part of it (they stay queued
+        -- and open the next dance) - also when several taps arrive between two ticks
+        if other || n' ≥ d.acts.length then decide evictAll d osd r (min n' (max d.acts.length 1))
         else { r with lazy := some (n', if n' > n then d.T else rem - 1) }
     | none =>
       if r.pause > 0 then { r with pause := r.pause - 1 }
